@@ -103,9 +103,15 @@ class FinishedPdu(AbstractFileDirectiveBase):
 
     @condition_code.setter
     def condition_code(self, condition_code: ConditionCode):
+        old_condition_code = self._params.condition_code
         self._params.condition_code = condition_code
         # The condition code decides whether the fault location is part of the PDU
-        self._calculate_directive_field_len()
+        try:
+            self._calculate_directive_field_len()
+        except ValueError:
+            # PDU data field would become too long: refuse the assignment, nothing has changed
+            self._params.condition_code = old_condition_code
+            raise
 
     @property
     def delivery_code(self) -> DeliveryCode:
@@ -145,11 +151,17 @@ class FinishedPdu(AbstractFileDirectiveBase):
         :raises ValueError: TLV type is not a filestore response
         :return:
         """
+        old_file_store_responses = self._params.file_store_responses
         if file_store_responses is None:
             self._params.file_store_responses = []
         else:
             self._params.file_store_responses = file_store_responses
-        self._calculate_directive_field_len()
+        try:
+            self._calculate_directive_field_len()
+        except ValueError:
+            # PDU data field would become too long: refuse the assignment, nothing has changed
+            self._params.file_store_responses = old_file_store_responses
+            raise
 
     @property
     def file_store_responses_len(self):
@@ -170,8 +182,14 @@ class FinishedPdu(AbstractFileDirectiveBase):
         """Setter function for the fault location.
         :raises ValueError: Type ID is not entity ID (0x06)
         """
+        old_fault_location = self._params.fault_location
         self._params.fault_location = fault_location
-        self._calculate_directive_field_len()
+        try:
+            self._calculate_directive_field_len()
+        except ValueError:
+            # PDU data field would become too long: refuse the assignment, nothing has changed
+            self._params.fault_location = old_fault_location
+            raise
 
     def _calculate_directive_field_len(self):
         base_len = 1
